@@ -354,11 +354,26 @@ func (r *sessRunner) step(ev *sessEvent, created map[string]bool) {
 			if preS != nil {
 				thr = int(preS.Threshold)
 			}
-			share, vv := harnessContribution(thr, r.n.ID, ev.Fault)
+			fault := ev.Fault
+			if fault == "undecodable" && !r.handler {
+				fault = "badvvec" // typed keys at the process level: nothing undecodable can be handed over
+			}
+			share, vv := harnessContribution(thr, r.n.ID, fault)
 			if r.handler {
 				req := &pb.ContributeRequest{Account: ev.Acct, Secret: share.Serialize()}
 				for i := range vv {
 					req.VerificationVector = append(req.VerificationVector, vv[i].Serialize())
+				}
+				if fault == "undecodable" && len(req.VerificationVector) >= 2 {
+					// a vector of the right length whose entries from the second on are no points at all, with the share
+					// that fits the decodable beginning alone (the constant term)
+					var a0 bls.SecretKey
+					a0.SetByCSPRNG()
+					req.Secret = a0.Serialize()
+					req.VerificationVector[0] = a0.GetPublicKey().Serialize()
+					for i := 1; i < len(req.VerificationVector); i++ {
+						req.VerificationVector[i] = [][]byte{{}, make([]byte, 47), []byte("not a point of the curve, not even of the right length")}[i%3]
+					}
 				}
 				var res *pb.ContributeResponse
 				res, err = r.n.Receiver.Contribute(hctx, req)
@@ -377,7 +392,7 @@ func (r *sessRunner) step(ev *sessEvent, created map[string]bool) {
 					r.checkReplyOwner(senderID, rs.Serialize(), ser, preS)
 				}
 			}
-			msg = fmt.Sprintf("RContribute %s %s", coqStr(ev.Acct), coqBool(ev.Fault == ""))
+			msg = fmt.Sprintf("RContribute %s %s", coqStr(ev.Acct), coqBool(fault == ""))
 		case "commit":
 			storeOK := strings.HasPrefix(ev.Acct, "Wallet 3/") && len(ev.Acct) > len("Wallet 3/") && !created[ev.Acct]
 			if r.handler {
@@ -519,6 +534,10 @@ func (r *sessRunner) step(ev *sessEvent, created map[string]bool) {
 		}
 		if ev.Kind == "commit" && err != nil && fmt.Sprint(preAccts) != fmt.Sprint(o.Accounts) {
 			fail("failed commit changed the accounts")
+		}
+		// a commit that fails is not an end of the generation: only a successful commit, an abort or the time limit is
+		if ev.Kind == "commit" && err != nil && active && post == nil && time.Since(preS.Started) < sessTimeout-sessMargin {
+			fail("the generation disappeared with a commit that failed (%v): neither committed, nor aborted, nor expired", err)
 		}
 		if ev.Kind == "abort" && err == nil && post != nil {
 			fail("generation still present after an abort")
@@ -697,7 +716,7 @@ func genSessSeq(rng *PRNG, ids []uint64, self uint64, handler bool, n int) []ses
 				if id < self && id != 0 && rng.Chance(90) {
 					f := ""
 					if rng.Chance(15) {
-						f = []string{"badshare", "otherid", "badvvec", "longvvec", "shortvvec"}[rng.Intn(5)]
+						f = []string{"badshare", "otherid", "badvvec", "longvvec", "shortvvec", "undecodable"}[rng.Intn(6)]
 					}
 					e := sessEvent{Kind: "contribute", Acct: a, Fault: f}
 					e.Caller, e.Sender = nodeName(id), id
@@ -717,7 +736,7 @@ func genSessSeq(rng *PRNG, ids []uint64, self uint64, handler bool, n int) []ses
 				add(sessEvent{Kind: []string{"commit", "abort", "execute", "contribute"}[rng.Intn(4)], Acct: a})
 			}
 		case 4:
-			add(sessEvent{Kind: "contribute", Acct: a, Fault: []string{"", "", "badshare", "otherid", "badvvec", "longvvec"}[rng.Intn(6)]})
+			add(sessEvent{Kind: "contribute", Acct: a, Fault: []string{"", "", "badshare", "otherid", "badvvec", "longvvec", "undecodable"}[rng.Intn(7)]})
 		case 5:
 			add(sessEvent{Kind: "execute", Acct: a})
 		case 6:
